@@ -1511,6 +1511,16 @@ impl Ctl {
             self.finish(t);
         }
         if !self.panics.is_empty() {
+            // the scenario is abandoned (recorded as `abort`); the workers still let go of what they hold, so
+            // that no handle of this scenario is alive in the next one
+            let log = self.log_enabled;
+            self.log_enabled = false;
+            for t in 0..nt {
+                if self.idle(t) {
+                    self.run(t, Op::ReleaseAll);
+                }
+            }
+            self.log_enabled = log;
             return false;
         }
         for t in 0..nt {
